@@ -14,15 +14,23 @@ import (
 // Poison is the byte written over released storage.
 const Poison = 0xDB
 
+// Pool is a deterministic last-in-first-out free list: the object released last is handed out next (the
+// behaviour of a real pool that is most likely to expose sharing, and the same in every run).
 type Pool struct {
-	New func() any
-	p   sync.Pool
+	New   func() any
+	mu    sync.Mutex
+	items []any
 }
 
 func (p *Pool) Get() any {
-	if v := p.p.Get(); v != nil {
+	p.mu.Lock()
+	if n := len(p.items); n > 0 {
+		v := p.items[n-1]
+		p.items = p.items[:n-1]
+		p.mu.Unlock()
 		return v
 	}
+	p.mu.Unlock()
 	if p.New != nil {
 		return p.New()
 	}
@@ -31,7 +39,9 @@ func (p *Pool) Get() any {
 
 func (p *Pool) Put(v any) {
 	Scribble(v)
-	p.p.Put(v)
+	p.mu.Lock()
+	p.items = append(p.items, v)
+	p.mu.Unlock()
 }
 
 // Scribble overwrites the byte storage reachable from a pooled object.
